@@ -1,6 +1,7 @@
 (* C34 -- per-case judge.
    KeyCase     : addrquota.ipKey on one address text (observed key string, parsed back here).
    QuotaCase   : Quota.Blocked on address texts in real time; per text (attempts, granted), measured elapsed ns.
+   WaveCase    : concurrent first contact: N > burst goroutines call Blocked once each on one fresh group.
    LimCase     : packetlimiter.Limiter through VerifAccountAt with generated timestamps/sizes;
                  observed decisions and (head, tail, cap, total) of both counters after every event,
                  full arrays at the end.
@@ -20,6 +21,7 @@ Definition cfull := (csum * Z * list Z * list Z)%type.
 Inductive case :=
 | KeyCase (a : bytes) (obs_key : bytes)
 | QuotaCase (burst rnum rden elapsed_ns : Z) (reqs : list (bytes * Z * Z))
+| WaveCase (burst rnum rden elapsed_upper_ns : Z) (reqs : list (bytes * Z * Z))
 | LimCase (pps bps window : Z) (evs : list (Z * Z)) (obs : list bool)
           (obs_p obs_b : list (option csum)) (fin_p fin_b : option cfull)
 | AccountCase (pps bps window : Z) (sizes : list Z) (valid : bool) (obs : list bool)
@@ -151,13 +153,14 @@ Fixpoint group_add (k : addr) (att adm : Z) (gs : list (addr * Z * Z)) : list (a
   end.
 
 (* granted within [min(attempts, burst), burst + rate * elapsed + 1] *)
-Definition group_ok (burst rnum rden elapsed : Z) (g : addr * Z * Z) : bool :=
+(* slack = extra events tolerated on top of C34_bucket_bound's right-hand side burst*rden + rnum*elapsed *)
+Definition group_ok (slack burst rnum rden elapsed : Z) (g : addr * Z * Z) : bool :=
   let '(_, att, adm) := g in
   (Z.min att burst <=? adm) && (adm <=? att) &&
-  (adm * rden <=? (burst + 1) * rden + rnum * elapsed).
+  (adm * rden <=? (burst + slack) * rden + rnum * elapsed).
 
 (* keyfn = spec_ip_key or impl_ip_key: unparsable texts are never blocked *)
-Definition quota_ok (keyfn : bytes -> option addr) (burst rnum rden elapsed : Z) (reqs : list (bytes * Z * Z)) : bool :=
+Definition quota_ok (slack : Z) (keyfn : bytes -> option addr) (burst rnum rden elapsed : Z) (reqs : list (bytes * Z * Z)) : bool :=
   let unl := forallb (fun r => match keyfn (fst (fst r)) with
                                | None => snd (fst r) =? snd r
                                | Some _ => true
@@ -166,7 +169,7 @@ Definition quota_ok (keyfn : bytes -> option addr) (burst rnum rden elapsed : Z)
                                    | Some k => group_add k (snd (fst r)) (snd r) gs
                                    | None => gs
                                    end) reqs [] in
-  unl && forallb (group_ok burst rnum rden elapsed) gs.
+  unl && forallb (group_ok slack burst rnum rden elapsed) gs.
 
 Definition judge (c : case) : verdict :=
   match c with
@@ -176,8 +179,15 @@ Definition judge (c : case) : verdict :=
       (if key_matches (impl_ip_key a) obs then VOk else VMismatch)
     else VViolation
   | QuotaCase burst rnum rden elapsed reqs =>
-    if quota_ok spec_ip_key burst rnum rden elapsed reqs then
-      (if quota_ok impl_ip_key burst rnum rden elapsed reqs then VOk else VMismatch)
+    if quota_ok 1 spec_ip_key burst rnum rden elapsed reqs then
+      (if quota_ok 1 impl_ip_key burst rnum rden elapsed reqs then VOk else VMismatch)
+    else VViolation
+  | WaveCase burst rnum rden elapsed reqs =>
+    (* concurrent first contact: more callers than burst hit one fresh group at once; lookup-or-create
+       of the group's bucket must be atomic, so the group as a whole stays within burst + rate * elapsed
+       (elapsed rounded up by the harness, no slack event) *)
+    if quota_ok 0 spec_ip_key burst rnum rden elapsed reqs then
+      (if quota_ok 0 impl_ip_key burst rnum rden elapsed reqs then VOk else VMismatch)
     else VViolation
   | LimCase pps bps window evs obs obs_p obs_b fin_p fin_b =>
     let l0 := new_limiter pps bps window in
